@@ -742,6 +742,10 @@ subroutine solve_t(initial_values, t, min_iter, max_iter, tol, offset, convergen
   end if
 
   ! Solve
+  ! (no errors so far: should `max_iter` allow no iterations at all, report a
+  !  failure to converge after 0 iterations, as the Python version does)
+  error_code = 0
+
   do iteration = 1, max_iter
 
      ! Save the values of the convergence variables
